@@ -160,6 +160,21 @@ class Sim:
             for j in sorted(self.stack)[:500]:
                 if j != keep and j not in self.owned: self.drop(j)
 
+    def bulk(self, c, mode, n):
+        """container c is built from n fresh probe structs that are allocated while the operation consumes its
+        argument (concat / assign with a lazily allocating iterable, or a loop of allocate + set)"""
+        first = self.nid + 1
+        self.nid += n
+        nd = self.n[c]
+        if mode == 'a': nd['items'] = []
+        for i in range(first, first + n):
+            self.n[i] = {'k': 'S', 'root': False, 'f': [0, 0], 'items': [], 'kv': {}}
+            self.ids.append(i)
+            if nd['k'] in 'TEYZ': nd['kv'][i] = i
+            else: nd['items'].append(i)
+        self.emit('B%d,%s,%d,%d' % (c, mode, n, first)); self.dirty()
+        return list(range(first, first + n))
+
     def store(self, i, slot, t):
         old = self.n[i]['f'][slot]
         self.n[i]['f'][slot] = t
@@ -598,9 +613,40 @@ def gen_finaliser(rng):
     return s.script()
 
 
+def gen_bulk(rng):
+    """collection points INSIDE a container operation: a container held by a root is built from fresh managed objects
+    that are allocated while the operation consumes its argument (concat / assign of a lazily allocating iterable into
+    Array, List, heap Tuple; allocate + set loops into Table / Tree with growth and rotations), sized so that the threshold
+    is crossed several times in the middle; afterwards every element must be alive"""
+    s = Sim(rng)
+    for _ in range(rng.randrange(0, 4)):
+        x = s.new(rng.choice('SR')); 
+        if rng.random() < .5: s.drop(x)
+    if rng.random() < .5: s.burst(rng.choice([3, 20, 60]))
+    conts = []
+    for _ in range(rng.randrange(1, 4)):
+        k = rng.choice('AALLUTEYZ')
+        c = s.new(k, root=rng.random() < .2)
+        r = root_somehow(s, c, rng, tlsslot=len(conts) + 1)
+        conts.append((c, r))
+        for _ in range(rng.randrange(1, 4)):
+            if k in 'AL': mode = rng.choice('cca')
+            elif k == 'U': mode = 'c'
+            else: mode = 's'
+            s.bulk(c, mode, rng.choice([1, 7, 30, 90, 250]))
+            if rng.random() < .4: s.collect(narrow=rng.random() < .5)
+            if rng.random() < .3 and k != 'U' or (k == 'U' and rng.random() < .3 and s.n[c]['items']): s.remove(c)
+    s.collect(); s.exact()
+    for c, r in conts:
+        if rng.random() < .5: unroot(s, r)
+    s.exact(); s.collect(narrow=True)
+    return s.script()
+
+
 def gen_case1(rng, size):
     r = rng.random()
     if r < .08: return gen_finaliser(rng)
+    if r < .16: return gen_bulk(rng)
     if r < .50: return gen_random(rng, size, max(12, size * 3))
     if r < .62: return gen_chain(rng, rng.choice([1, 2, 5, 20, 100, min(size * 2, 400)]))
     if r < .72: return gen_tuple_dag(rng, rng.randrange(2, 14), rng.choice([1, 2, 2, 3]))
@@ -627,6 +673,16 @@ def valid_script(case):
             v = [int(x) for x in re.findall(r'\d+', rest)]
             if c == '@': continue
             if c in 'NCGHM' and s.pending_finalisers(): return False      # only an exact collection may finalise an F node
+            if c == 'B':
+                m = re.match(r'(\d+),([cas]),(\d+),(\d+)$', rest)
+                if not m or s.pending_finalisers() or not owned_ok(): return False
+                cc, mode, n, first = int(m.group(1)), m.group(2), int(m.group(3)), int(m.group(4))
+                if not s.usable(cc) or first <= s.nid or any(first <= q[0] < first + n for q in s.qcfg.values()): return False
+                k = s.n[cc]['k']
+                if not (mode == 'c' and k in 'ALU' or mode == 'a' and k in 'AL' or mode == 's' and k in 'TEYZ'): return False
+                s.nid = first - 1
+                s.bulk(cc, mode, n)
+                continue
             if c == 'Q':
                 m = re.match(r'(\d+)=(\d+)([SW]),(K|T\d+|P\d+\.\d+)$', rest)
                 if not m: return False
@@ -829,6 +885,8 @@ def corr(case, impl, model):
 def nontrivial(case, impl):
     """some collection kept at least two nodes while at least one node had been reclaimed"""
     created = set(int(x) for x in re.findall(r'[NC](\d+)[A-Z=]', case))
+    for m in re.finditer(r'B\d+,[cas],(\d+),(\d+)', case):
+        created |= set(range(int(m.group(2)), int(m.group(2)) + int(m.group(1))))
     for o in parse(impl):
         if o['op'] in 'GHEM' and len(o.get('a', ())) >= 2 and len(created - o['a']) >= 1:
             return True
@@ -854,6 +912,9 @@ def classify(case, impl, why):
 
 
 CORPUS = [
+    'N1A B1,c,300,10 E G',                                 # seed C01-r3-1: threshold collections in the middle of concat
+    'N1A B1,a,300,10 E', 'N1U B1,c,200,10 E',              # ... of assign into an Array, of concat into a heap Tuple
+    'N1L T+1=1 K-1 B1,c,120,10 B1,a,90,200 E N2E! K-2 B2,s,150,400 G E',
     'N1S N2F Q2=3W,K K-2 E E G H M30 K-3 E',             # seed C01-r2-2: object allocated by a finaliser, outside the window
     'N1S N2F Q2=3S,P1.1 K-2 E E G',
     '@ N1R! N2F Q2=3W,T4 K-2 E K-1 E G T-4 E',
